@@ -1,2 +1,119 @@
+/* unit ops: aln_param_init, set_aln_type, detect_alphabet, detect_aligned, convert_msa_to_internal */
 #include "kvh.h"
-struct kv_op kv_ops_param[] = { {NULL, NULL} };
+#include "tldevel.h"
+#include "msa_struct.h"
+#include "msa_alloc.h"
+#include "msa_op.h"
+#include "aln_param.h"
+#include "alphabet.h"
+
+int kv_set_aln_type(char *in, int *type);
+
+static uint32_t fbits(float f){ union { float f; uint32_t u; } x; x.f = f; return x.u; }
+static float bitsf(const char *s){ union { float f; uint32_t u; } x; x.u = (uint32_t)strtoul(s, NULL, 16); return x.f; }
+
+static int op_param_init(int argc, char **argv, FILE *out)
+{
+        if(argc != 5) return 1;
+        struct aln_param *ap = NULL;
+        int rc = aln_param_init(&ap, atoi(argv[0]), 1, atoi(argv[1]), bitsf(argv[2]), bitsf(argv[3]), bitsf(argv[4]));
+        if(rc != OK || !ap){ fputs("FAIL", out); return 0; }
+        uint32_t h = 2166136261u;
+        for(int i = 0; i < 23; i++) for(int j = 0; j < 23; j++){ h = (h ^ fbits(ap->subm[i][j])) * 16777619u; }
+        fprintf(out, "%08x %08x %08x %08x", fbits(ap->gpo), fbits(ap->gpe), fbits(ap->tgpe), h);
+        aln_param_free(ap);
+        return 0;
+}
+
+static int op_set_aln_type(int argc, char **argv, FILE *out)
+{
+        if(argc != 1) return 1;
+        int t = -77, rc;
+        if(strcmp(argv[0], "NULL") == 0){
+                rc = kv_set_aln_type(NULL, &t);
+        }else{
+                unsigned char *b; int n;
+                if(kv_unhex(argv[0], &b, &n)) return 1;
+                rc = kv_set_aln_type((char*)b, &t);
+                free(b);
+        }
+        if(rc != OK) fputs("FAIL", out); else fprintf(out, "%d", t);
+        return 0;
+}
+
+static int op_detect_alphabet(int argc, char **argv, FILE *out)
+{
+        if(argc != 1) return 1;
+        struct kv_ints h;
+        if(kv_parse_ints(argv[0], &h)) return 1;
+        if(h.n != 128){ kv_free_ints(&h); return 1; }
+        struct msa *m = NULL;
+        alloc_msa(&m, 1);
+        m->quiet = 1;
+        for(int i = 0; i < 128; i++) m->letter_freq[i] = h.v[i];
+        int rc = detect_alphabet(m);
+        if(rc != OK) fputs("FAIL", out); else fprintf(out, "%d", m->biotype);
+        kalign_free_msa(m);
+        kv_free_ints(&h);
+        return 0;
+}
+
+static int op_detect_aligned(int argc, char **argv, FILE *out)
+{
+        if(argc < 1) return 1;
+        struct msa *m = NULL;
+        alloc_msa(&m, argc);
+        m->quiet = 1;
+        int bad = 0;
+        for(int i = 0; i < argc && !bad; i++){
+                char *c = strchr(argv[i], ':');
+                if(!c){ bad = 1; break; }
+                *c = 0;
+                int len = atoi(argv[i]);
+                struct kv_ints g;
+                if(kv_parse_ints(c + 1, &g) || g.n != len + 1 || len + 1 > 512){ bad = 1; break; }
+                m->sequences[i]->len = len;
+                for(int j = 0; j <= len; j++) m->sequences[i]->gaps[j] = g.v[j];
+                kv_free_ints(&g);
+        }
+        if(!bad){
+                m->numseq = argc;
+                detect_aligned(m);
+                fprintf(out, "%d", m->aligned);
+        }
+        m->numseq = 0;
+        kalign_free_msa(m);
+        return bad;
+}
+
+static int op_convert(int argc, char **argv, FILE *out)
+{
+        if(argc != 2) return 1;
+        int id = atoi(argv[0]);
+        if(id != 5 && id != 13 && id != 23 && id != 21 && id != 8) return 1;
+        int len = (int)strlen(argv[1]);
+        if(len + 1 > 512) return 1;
+        struct msa *m = NULL;
+        alloc_msa(&m, 1);
+        m->quiet = 1; m->numseq = 1;
+        m->sequences[0]->len = len;
+        memcpy(m->sequences[0]->seq, argv[1], len + 1);
+        FILE *save = stderr; (void)save;
+        convert_msa_to_internal(m, id);
+        int *v = malloc(sizeof(int) * (len + 1));
+        for(int i = 0; i < len; i++) v[i] = m->sequences[0]->s[i];
+        kv_print_ints(out, v, len);
+        free(v);
+        m->numseq = 0;
+        kalign_free_msa(m);
+        return 0;
+}
+
+struct kv_op kv_ops_param[] = {
+        {"param_init", op_param_init},
+        {"set_aln_type", op_set_aln_type},
+        {"detect_alphabet", op_detect_alphabet},
+        {"detect_aligned", op_detect_aligned},
+        {"convert", op_convert},
+        {NULL, NULL}
+};
